@@ -76,7 +76,14 @@ impl Compiler {
 
             Statement::Labeled(labeled) => self.compile_labeled(labeled),
 
-            Statement::FunctionDeclaration(func) => self.compile_function_declaration(func),
+            Statement::FunctionDeclaration(func) => {
+                if self.hoisted_functions.contains(&func.span.start) {
+                    // created when its block was entered
+                    Ok(())
+                } else {
+                    self.compile_function_declaration(func)
+                }
+            }
 
             Statement::ClassDeclaration(class) => self.compile_class_declaration(class),
 
@@ -174,6 +181,20 @@ impl Compiler {
                     self.builder
                         .emit(Op::DeclareUninitialized { name: idx });
                 }
+            }
+        }
+        self.emit_function_prelude(body)
+    }
+
+    /// Function declarations are initialised when their block (or function body, or
+    /// the program) is entered: they can be called before the declaration is reached
+    pub(super) fn emit_function_prelude(&mut self, body: &[Statement]) -> Result<(), JsError> {
+        for stmt in body {
+            if let Statement::FunctionDeclaration(func) = stmt
+                && func.id.is_some()
+                && self.hoisted_functions.insert(func.span.start)
+            {
+                self.compile_function_declaration(func)?;
             }
         }
         Ok(())
@@ -823,17 +844,17 @@ impl Compiler {
 
                 self.builder.free_register(cmp_reg);
                 self.builder.free_register(test_reg);
-            } else {
-                // Default case - save for later
-                default_jump = Some(self.builder.emit_jump());
             }
         }
 
-        // Jump to end if no case matched (and no default)
-        let jump_to_end = if default_jump.is_none() {
-            Some(self.builder.emit_jump())
-        } else {
+        // No case matched: go to the default clause (wherever it stands among the
+        // clauses - the cases after it were still tested first), or to the end
+        let has_default = switch_stmt.cases.iter().any(|c| c.test.is_none());
+        let jump_to_end = if has_default {
+            default_jump = Some(self.builder.emit_jump());
             None
+        } else {
+            Some(self.builder.emit_jump())
         };
 
         // Second pass: emit case bodies
@@ -1305,7 +1326,7 @@ impl Compiler {
         let mut chunk = func_compiler.builder.finish();
         chunk.function_info = Some(FunctionInfo {
             name,
-            param_count: params.len(),
+            param_count: super::expected_argument_count(params),
             is_generator,
             is_async,
             is_arrow,
@@ -2313,7 +2334,7 @@ impl Compiler {
         let mut chunk = func_compiler.builder.finish();
         chunk.function_info = Some(FunctionInfo {
             name,
-            param_count: ctor.params.len(),
+            param_count: super::expected_argument_count(&ctor.params),
             param_names,
             rest_param,
             is_generator: false,
